@@ -125,7 +125,13 @@ func verifHarness_C01_select() {
 	routes := verifBuildTable(r, defs)
 	m := verifReqMethods[verifChoice("method", len(verifReqMethods))]
 	p := verifNormalPath("p", verifParam("L"))
-	got, _, _ := r.QuickMatch(m, p)
+	var got *Route
+	if verifParam("viaMatch") == 1 && verifChoice("viaMatch", 2) == 1 {
+		// the public Match accepts any spelling of the method name
+		got, _, _ = r.Match(verifLowerASCII(m), p)
+	} else {
+		got, _, _ = r.QuickMatch(m, p)
+	}
 	g := verifRouteIndex(routes, got)
 	verifAssert(verifOr(got == nil, g >= 0), "the returned route is a registered route")
 	direct := verifWinnerIs(defs, m, p, g)
@@ -141,4 +147,47 @@ func verifHarness_C01_select() {
 		verifCover("C01 no route")
 	}
 	verifObserve("winner", g)
+}
+
+
+func verifLowerASCII(s string) string {
+	b := []byte(s)
+	for i := range b {
+		if b[i] >= 'A' && b[i] <= 'Z' && i%2 == 0 {
+			b[i] += 32
+		}
+	}
+	return string(b)
+}
+
+// Strict trailing-slash mode with dynamic routes: "/a/{v}" and "/a/{v}/" are
+// different routes, each reached only by its own spelling.
+func verifHarness_C01_strictDynamic() {
+	tables := [][]verifRouteDef{
+		{{"/a/{v}", []string{"GET"}}, {"/a/{v}/", []string{"GET"}}},
+		{{"/a/{v}/", []string{"GET"}}, {"/a/{v}", []string{"GET"}}},
+		{{"/{v}/", []string{"GET"}}, {"/a/", []string{"GET"}}, {"/a", []string{"GET"}}},
+		{{"/a[/{v}]", []string{"GET"}}, {"/a/", []string{"POST"}}},
+	}
+	defs := tables[verifCfg()%len(tables)]
+	r := New(StrictLastSlash)
+	routes := verifBuildTable(r, defs)
+	for i, d := range defs {
+		verifAssert(routes[i].Path() == d.pat, "strict mode keeps the registered spelling")
+	}
+	m := []string{"GET", "POST"}[verifChoice("method", 2)]
+	n := verifLen("p_len", 1, verifParam("L"))
+	p := verifString("p", n)
+	verifAssume(p[0] == '/')
+	if n > 1 {
+		verifAssume(p[1] != '/')
+		last := p[n-1]
+		verifAssume(verifOr(verifAnd(last > 0x20, last < 0x80), last >= 0xB0)) // a trailing '/' is allowed here
+	}
+	got, _, _ := r.QuickMatch(m, p)
+	g := verifRouteIndex(routes, got)
+	verifAssert(verifWinnerIs(defs, m, p, g), "in strict mode the selected route is the specified winner for the exact spelling")
+	if g >= 0 {
+		verifCover("C01 strict route selected")
+	}
 }
